@@ -110,13 +110,15 @@ var plans = map[string]Plan{
 	},
 	"C13": {
 		Level: "exploration",
-		Rule: "cases are (decoding API, message <=96 bytes): a complete grid placing 2^16, 2^20, 2^24, 2^28, 2^31-1 at every position where the format carries a length or count (binary length; list/set count x 11 element kinds; map count x 8 key/value kinds; nested positions; top-level containers; strict and legacy envelope name length; frame length; the same bodies behind an envelope) x every API; every container/binary field of the repository's generated plugin-API types and of freshly generated programs (top level and one struct level down) x {FromWire(Decode), Decode(stream)}; plus rapid-generated mutated short messages. " +
-			"Each call runs in a child process (RLIMIT_AS 6 GiB); oracle: runtime.MemStats.TotalAlloc delta <= 24 MiB + 64*N, CPU <= 2 s (re-measured alone twice), child not killed. " +
-			"Non-trivial: the message carries a declared length >= 2^16 or is a mutation. Distinct: SHA-256 of (API, message).",
+		Rule: "cases are (decoding API, message <=96 bytes): a complete grid placing 2^16, 2^20, 2^24, 2^28, 2^31-1 at every position where the format carries a length or count (binary length; list/set count x 11 element kinds; map count x 8 key/value kinds; nested positions; top-level containers; strict and legacy envelope name length; frame length; the same bodies behind an envelope) x every API x concrete source types (streaming APIs: a plain non-seekable reader, *bytes.Buffer, *bytes.Reader, *bufio.Reader; random-access APIs: *bytes.Reader and a plain io.ReaderAt reporting io.EOF together with the last bytes); every container/binary field of the repository's generated plugin-API types and of freshly generated programs (top level and one struct level down; containers also announcing other element types: fixed-width ones and binary, for maps key / value / both) x {FromWire(Decode), Decode(stream)} x source types (headers announcing the declared element type with a count above 2^20 over the default source only: known finding K1 makes each cost gigabytes); long payloads: every binary-length position (fields, container elements, envelope names, frame; every string / binary field of the generated types) with a real payload of 1 MiB, 1 MiB+1, 1 MiB+4096 bytes that declares 2^29 or 2^31-1 and ends there; plus rapid-generated mutated short messages over a drawn source type (also *strings.Reader, *io.SectionReader). " +
+			"Each call runs in a child process (RLIMIT_AS 6 GiB); oracle: runtime.MemStats.TotalAlloc delta <= 24 MiB + 64*N, CPU <= 2 s (re-measured alone twice; a child stops itself after 6 s of CPU in one case, and after 4 such stops the rest of its batch is not measured: the run has failed), child not killed. " +
+			"Non-trivial: the message carries a declared length >= 2^16 or is a mutation. Distinct: SHA-256 of (API, message, source type, padding).",
 		Assumptions: []string{
 			"TotalAlloc delta around one call in an otherwise idle child is the allocation caused by the call",
 			"24 MiB + 64 N is a generous reading of 'a fixed constant plus a small multiple of N' (covers the documented 1 MiB binary threshold and 10 MiB frame fast path)",
 			"the streaming body walker used for ReadRequest / ReadEnvelopeBegin (internal/bridge) allocates only per element actually read",
+			"copying the message into the concrete source (*bytes.Buffer, *strings.Reader) is part of the measured call: N bytes, inside the 64 N term",
+			"the source types are the standard library's usual ones; a reader type of the user's own with further optional interfaces is not covered",
 		},
 		Units: []Unit{
 			{Name: "grid", Pkg: "./checks/c13", Run: "^TestGrid$", Shards: [2]int{8, 8}, Weight: 2},
